@@ -753,6 +753,176 @@ func usesIdent(body *ast.BlockStmt, name string) bool {
 	return used
 }
 
+
+// renameFunc gives every local declaration of the function a name of its own (i, i#2, i#3 ...) by rewriting the
+// identifiers of the syntax tree in place, following Go's block scoping (blocks, if / for / range headers, := seeing the
+// outer name on its right-hand side).  The translated function then lives in one flat frame without any name standing
+// for two variables.  Field names, function names and types are not in any scope and stay as they are.
+func renameFunc(d *ast.FuncDecl) {
+	used := map[string]int{}
+	stack := []map[string]string{{}}
+	push := func() { stack = append(stack, map[string]string{}) }
+	pop := func() { stack = stack[:len(stack)-1] }
+	declare := func(id *ast.Ident) {
+		if id == nil || id.Name == "_" {
+			return
+		}
+		base := id.Name
+		used[base]++
+		nn := base
+		if used[base] > 1 {
+			nn = fmt.Sprintf("%s#%d", base, used[base])
+		}
+		stack[len(stack)-1][base] = nn
+		id.Name = nn
+	}
+	use := func(id *ast.Ident) {
+		for i := len(stack) - 1; i >= 0; i-- {
+			if nn, ok := stack[i][id.Name]; ok {
+				id.Name = nn
+				return
+			}
+		}
+	}
+	var expr func(e ast.Expr)
+	expr = func(e ast.Expr) {
+		switch x := e.(type) {
+		case nil:
+		case *ast.Ident:
+			use(x)
+		case *ast.ParenExpr:
+			expr(x.X)
+		case *ast.UnaryExpr:
+			expr(x.X)
+		case *ast.StarExpr:
+			expr(x.X)
+		case *ast.BinaryExpr:
+			expr(x.X)
+			expr(x.Y)
+		case *ast.IndexExpr:
+			expr(x.X)
+			expr(x.Index)
+		case *ast.SliceExpr:
+			expr(x.X)
+			expr(x.Low)
+			expr(x.High)
+			expr(x.Max)
+		case *ast.SelectorExpr:
+			expr(x.X)
+		case *ast.KeyValueExpr:
+			expr(x.Value)
+		case *ast.CompositeLit:
+			for _, el := range x.Elts {
+				expr(el)
+			}
+		case *ast.CallExpr:
+			expr(x.Fun)
+			for _, a := range x.Args {
+				expr(a)
+			}
+		}
+	}
+	var stmt func(s ast.Stmt)
+	block := func(b *ast.BlockStmt) {
+		if b == nil {
+			return
+		}
+		push()
+		for _, s := range b.List {
+			stmt(s)
+		}
+		pop()
+	}
+	stmt = func(s ast.Stmt) {
+		switch x := s.(type) {
+		case nil:
+		case *ast.BlockStmt:
+			block(x)
+		case *ast.ExprStmt:
+			expr(x.X)
+		case *ast.IncDecStmt:
+			expr(x.X)
+		case *ast.ReturnStmt:
+			for _, r := range x.Results {
+				expr(r)
+			}
+		case *ast.DeclStmt:
+			if gd, ok := x.Decl.(*ast.GenDecl); ok {
+				for _, sp := range gd.Specs {
+					if vs, ok := sp.(*ast.ValueSpec); ok {
+						for _, v := range vs.Values {
+							expr(v)
+						}
+						for _, n := range vs.Names {
+							declare(n)
+						}
+					}
+				}
+			}
+		case *ast.AssignStmt:
+			for _, r := range x.Rhs {
+				expr(r)
+			}
+			for _, l := range x.Lhs {
+				if id, ok := l.(*ast.Ident); ok && x.Tok == token.DEFINE {
+					if _, here := stack[len(stack)-1][id.Name]; here {
+						use(id) // a := with a name of this very scope is an assignment to it
+					} else {
+						declare(id)
+					}
+				} else {
+					expr(l)
+				}
+			}
+		case *ast.IfStmt:
+			push()
+			stmt(x.Init)
+			expr(x.Cond)
+			block(x.Body)
+			stmt(x.Else)
+			pop()
+		case *ast.ForStmt:
+			push()
+			stmt(x.Init)
+			expr(x.Cond)
+			stmt(x.Post)
+			block(x.Body)
+			pop()
+		case *ast.RangeStmt:
+			expr(x.X)
+			push()
+			if x.Tok == token.DEFINE {
+				if id, ok := x.Key.(*ast.Ident); ok {
+					declare(id)
+				}
+				if id, ok := x.Value.(*ast.Ident); ok {
+					declare(id)
+				}
+			} else {
+				expr(x.Key)
+				expr(x.Value)
+			}
+			block(x.Body)
+			pop()
+		}
+	}
+	if d.Recv != nil {
+		for _, f := range d.Recv.List {
+			for _, n := range f.Names {
+				declare(n)
+			}
+		}
+	}
+	for _, f := range d.Type.Params.List {
+		for _, n := range f.Names {
+			declare(n)
+		}
+	}
+	for _, s := range d.Body.List {
+		stmt(s)
+	}
+}
+
 func translate(key string, d *ast.FuncDecl) (text string, err error) {
 	defer func() {
 		if r := recover(); r != nil {
@@ -763,6 +933,7 @@ func translate(key string, d *ast.FuncDecl) (text string, err error) {
 			panic(r)
 		}
 	}()
+	renameFunc(d)
 	c := &ctx{declared: map[string]bool{}, vtype: map[string]string{}, vnamed: map[string]string{}, tparams: tparamsOf(d), vexpr: map[string]ast.Expr{}}
 	params := []string{}
 	addParam := func(n *ast.Ident, t ast.Expr) {
